@@ -51,6 +51,8 @@ def run(P, rep, tier):
 
     # an interrupted patch is resumed (not buried under a fresh patch) by every writable open mode: open-mode contract
     rep.attempt(c03.r2_mode_dispatch, P, rep, ctx)
+    # ... and it is found again: file discovery by record name returns every container of the record (rule ids C03.R3)
+    rep.attempt(c03.r3_name_language, P, rep, ctx)
     rep.floor("C11.R2", 12)
     rep.floor("C02.R4", 11)
 
@@ -169,6 +171,11 @@ def r2_manifest_after_commit(P, rep, ctx, rule="C11.R2"):
 
     mfsave = sorted({i for i, c, b in all_saves if is_manifest_obj(b["__o"])})
     _order(rep, g, fi, rule, sup, mfsave, "the container commit (super().commit_patch)", "writing the manifest file")
+    # the only manifest file a commit writes is the sidecar of the container it just committed (never a path remembered
+    # from opening: that one may be the sidecar of an older, committed patch)
+    paths = sorted({f.x_at(i, c.args[0]) if c.args else "?" for i, c, b in all_saves if is_manifest_obj(b["__o"])})
+    rep.check(paths == ["self._manifest_filepath(self._files[-1].filename)"], rule, fi.qual, "the manifest is written next to the newest container only", fi.loc(), construct="manifest save target",
+              message=f"commit_patch writes the manifest to {paths}: a manifest file belonging to an already committed container can be overwritten")
     # and not reachable through the exception edge of the commit: manifest write must not be inside the try protecting the commit
     for m in mfsave:
         in_try = any(isinstance(t, ast.Try) and any(x is g.nodes[m].stmt for b in t.body for x in ast.walk(b)) and any(x is g.nodes[s_].stmt for s_ in sup for b in t.body for x in ast.walk(b)) for t in ast.walk(fi.node))
